@@ -308,3 +308,8 @@ def run(ctx):
     boundaries.check_calls(ctx, 'C04.RC', 'C04')
     from .. import errdisc
     errdisc.check(ctx, 'C04.RD', 'C04', 26)
+    from .. import tables
+    r9 = ctx.rule('C04.R9', 'TABLE', 'stream identifier parity predicates (client = odd, server = even non-zero, zero) agree with RFC 9113 5.1.1')
+    tables.stream_id_predicates(r9, ctx.facts)
+    from .. import boundaries as _b
+    _b.check_predicates(ctx, 'C04.RP', 'C04')
